@@ -119,7 +119,7 @@ func (e c22cEvent) String() string {
 
 type c22cScenario struct {
 	name    string
-	heavy   bool // setRemoveNewOperations (job worker: daemon threads) runs in it
+	heavy   bool // one of the largest scenarios with the removal job worker: bound 2 also in the thorough tier
 	init    []c22cOp
 	threads [][]c22cOp
 }
@@ -852,35 +852,35 @@ func c22cScenarios() []c22cScenario {
 	type T = [][]c22cOp
 
 	// op0=(f1,a) op1=(f1,b) op2=(f2,a) op3=(f2,b); filters: a all, f reject fact f1, o reject op1, n reject all.
-	// heavy = setRemoveNewOperations runs in the scenario: its job worker adds 2-3 daemon threads and ~25 scheduling
-	// points per removal (every blocking point of a daemon is a free choice of the explorer).
+	// Whenever setRemoveNewOperations runs (a filter rejects, an older duplicate is dropped, R) its job worker adds 2-3
+	// daemon threads and ~25 scheduling points, and every blocking point of a daemon is a free choice of the explorer.
+	// heavy = the four largest of those scenarios (17k-31k executions at bound 2, 200k-330k at bound 3): they stay at
+	// bound 2 in the thorough tier. The order balances the shards (the large scenarios come first).
 	return []c22cScenario{
-		// adders of the SAME operation
-		{"same-op-adders-reader", false, nil, T{{S(0)}, {S(0)}, {Q(33, 10, 'a')}}},
-		{"same-op-adders-read-back", false, nil, T{{S(0), Q(33, 10, 'a')}, {S(0), Q(33, 10, 'a')}}},
-		{"same-op-adders-lookup", false, nil, T{{S(0), G(0)}, {S(0)}, {G(0)}}},
+		// filtering readers, the removal function, the cleaner
+		{"rejecting-and-accepting-readers", false, []c22cOp{S(0), S(2)}, T{{Q(33, 10, 'f')}, {Q(33, 10, 'a')}}},
+		{"remover-reader", false, []c22cOp{S(0), S(2)}, T{{R(0, 33)}, {Q(33, 10, 'a')}}},
+		{"cleaner-vs-rejecting-then-accepting-reader", false, []c22cOp{S(0), S(2), R(0, 33)}, T{{C}, {Q(36, 10, 'n'), Q(36, 10, 'a')}}},
+		{"cleaner-then-readd-vs-rejecting-reader", true, []c22cOp{S(0), S(1), S(2), R(0, 33)}, T{{C, S(0)}, {Q(36, 10, 'o')}}},
+		{"reject-all-then-accept-all-vs-adder", true, []c22cOp{S(0)}, T{{Q(33, 10, 'n'), Q(33, 10, 'a')}, {S(1)}}},
 		{"same-op-adders-rejecting-reader", true, nil, T{{S(0)}, {S(0)}, {Q(33, 10, 'n')}}},
+		{"remover-same-fact-adder", true, []c22cOp{S(0)}, T{{R(0, 33)}, {S(1), S(0)}}},
 		// adders of two operations of ONE fact, of different facts, a reader with a limit
-		{"same-fact-adders-reader", true, nil, T{{S(0)}, {S(1)}, {Q(33, 10, 'a')}}},
+		{"same-fact-adders-reader", false, nil, T{{S(0)}, {S(1)}, {Q(33, 10, 'a')}}},
+		// adders of the SAME operation
+		{"same-op-adders-read-back", false, nil, T{{S(0), Q(33, 10, 'a')}, {S(0), Q(33, 10, 'a')}}},
+		{"same-op-adders-reader", false, nil, T{{S(0)}, {S(0)}, {Q(33, 10, 'a')}}},
+		{"same-op-adders-lookup", false, nil, T{{S(0), G(0)}, {S(0)}, {G(0)}}},
+		{"same-fact-adder-lookup-rejecting-reader", false, []c22cOp{S(0)}, T{{S(1), G(1)}, {Q(33, 10, 'o')}}},
+		{"adder-rejecting-reader", false, nil, T{{S(0)}, {Q(33, 10, 'n')}}},
 		{"different-facts-adders-limit-1", false, nil, T{{S(0)}, {S(2)}, {Q(33, 1, 'a')}}},
 		{"different-facts-adders-limit-1-twice", false, nil, T{{S(0), S(2)}, {Q(33, 1, 'a'), Q(33, 1, 'a')}}},
 		{"mixed-adders-limit-2", false, nil, T{{S(0), S(2)}, {S(3), S(1)}, {Q(33, 2, 'a')}}},
-		{"same-fact-adder-limit-1-then-all", true, []c22cOp{S(0)}, T{{S(1)}, {Q(33, 1, 'a'), Q(33, 10, 'a')}}},
+		{"same-fact-adder-limit-1-then-all", false, []c22cOp{S(0)}, T{{S(1)}, {Q(33, 1, 'a'), Q(33, 10, 'a')}}},
 		{"two-limited-readers-duplicates", false, []c22cOp{S(0), S(2), S(1)}, T{{Q(33, 1, 'a')}, {Q(33, 2, 'a')}}},
 		{"adder-lookup-reader", false, nil, T{{S(0)}, {G(0)}, {Q(33, 10, 'a')}}},
-		// filtering readers
-		{"adder-rejecting-reader", true, nil, T{{S(0)}, {Q(33, 10, 'n')}}},
-		{"rejecting-and-accepting-readers", true, []c22cOp{S(0), S(2)}, T{{Q(33, 10, 'f')}, {Q(33, 10, 'a')}}},
-		{"reject-all-then-accept-all-vs-adder", true, []c22cOp{S(0)}, T{{Q(33, 10, 'n'), Q(33, 10, 'a')}, {S(1)}}},
-		{"same-fact-adder-lookup-rejecting-reader", true, []c22cOp{S(0)}, T{{S(1), G(1)}, {Q(33, 10, 'o')}}},
-		// the removal function
-		{"remover-reader", true, []c22cOp{S(0), S(2)}, T{{R(0, 33)}, {Q(33, 10, 'a')}}},
-		{"remover-same-fact-adder", true, []c22cOp{S(0)}, T{{R(0, 33)}, {S(1), S(0)}}},
-		// the cleaner
 		{"cleaner-readder-reader", false, []c22cOp{S(0), S(2), R(0, 33), R(2, 36)}, T{{C}, {S(0)}, {Q(36, 10, 'a')}}},
 		{"cleaner-readder-lookup", false, []c22cOp{S(0), S(2), R(0, 33), R(2, 36)}, T{{C}, {S(0), G(0)}, {G(0)}}},
-		{"cleaner-then-readd-vs-rejecting-reader", true, []c22cOp{S(0), S(1), S(2), R(0, 33)}, T{{C, S(0)}, {Q(36, 10, 'o')}}},
-		{"cleaner-vs-rejecting-then-accepting-reader", true, []c22cOp{S(0), S(2), R(0, 33)}, T{{C}, {Q(36, 10, 'n'), Q(36, 10, 'a')}}},
 	}
 }
 
